@@ -13,6 +13,7 @@
 package main
 
 import (
+	"crypto/sha256"
 	"encoding/json"
 	"flag"
 	"fmt"
@@ -254,31 +255,8 @@ func main() {
 	}
 	vsched.SetClock(fixedClockNS)
 
-	// the coordinator enumerates the same list to count it and to record the alphabet
-	tEnum := time.Now()
-	total := 0
-	byPart := map[string]int{}
-	keys := map[string]struct{}{}
-	dup := 0
-	enumerate(c.Thorough(), func(cs *Case) {
-		total++
-		byPart[cs.Part]++
-		k := cs.key()
-		if _, ok := keys[k]; ok {
-			dup++
-		} else {
-			keys[k] = struct{}{}
-		}
-		c.Distinct(k, true)
-		if total%97 == 1 && (cs.Part != "matrix" || total < 400) || len(keys) == 1 {
-			c.Sample(cs)
-		}
-	})
-	keys = nil
-	enumSecs := time.Since(tEnum).Seconds()
-
 	n := harness.Workers()
-	budget := harness.Pick(c, 100*time.Second, 3*time.Hour)
+	budget := harness.Pick(c, 20*time.Minute, 8*time.Hour) // safety net only; a loaded machine must not change the counts
 	outs := make([]*workerOut, n)
 	var wg sync.WaitGroup
 	for i := 0; i < n; i++ {
@@ -299,6 +277,33 @@ func main() {
 			outs[i] = &wo
 		}(i)
 	}
+
+	// meanwhile the coordinator enumerates the same list to count it, to
+	// check that the parameter tuples are distinct and to record samples
+	tEnum := time.Now()
+	total := 0
+	byPart := map[string]int{}
+	keys := map[[12]byte]struct{}{}
+	dup := 0
+	enumerate(c.Thorough(), func(cs *Case) {
+		total++
+		byPart[cs.Part]++
+		k := cs.key()
+		h := sha256.Sum256([]byte(k))
+		hk := [12]byte(h[:12])
+		if _, ok := keys[hk]; ok {
+			dup++
+		} else {
+			keys[hk] = struct{}{}
+		}
+		c.Distinct(k, true)
+		if byPart[cs.Part] == 1 || byPart[cs.Part] == 1000 {
+			c.Sample(cs)
+		}
+	})
+	distinct := len(keys)
+	keys = nil
+	enumSecs := time.Since(tEnum).Seconds()
 	wg.Wait()
 
 	var cases, ops, reads, bytesMoved, refused, failing, minRuns int64
@@ -329,7 +334,7 @@ func main() {
 		c.Violation(v.Sig, v.What, v.Case)
 	}
 
-	c.Count(cases, int64(total-dup), ops)
+	c.Count(cases, int64(distinct), ops)
 	c.Rule = "one case = one complete client<->server session of the real ss2022 stream client and server (or two chained tunnels with a re-encrypting relay) over a scripted in-memory transport: {tunnel config, target kind, initial payload length, padding extreme, per-direction writer mode + write sizes, reader mode + read-buffer sizes, transport cuts/grid, transport buffer size}; distinct = distinct parameter tuples (all are non-trivial: every case performs a full handshake and compares both directions with the reference byte queues); transitions = calls made on the tunnel API (DialStream, HandleStream, Write, Read, ReadFrom, WriteTo, CloseWrite)"
 	c.Assumptions = []string{
 		"bounded: the alphabets listed in coverage.alphabet; no claim outside them",
